@@ -380,7 +380,10 @@ func (ctx *Ctx) rloop(path []byte, r *node, nodes []node) {
 			// Mark RL as inuse and loop over var using inspector.
 			rl.stat = rlInuse
 			rl.brk = false
-			ctx.Err = v.ins.Loop(v.val, rl, &rl.kbuf, ctx.bufS[1:]...)
+			ctx.Err = nil
+			if err := v.ins.Loop(v.val, rl, &rl.kbuf, ctx.bufS[1:]...); err != nil && ctx.Err == nil {
+				ctx.Err = err
+			}
 			rl.stat = rlFree
 			return
 		}
